@@ -810,11 +810,18 @@ def rule_c19_commands(prog: Program, col: Collector) -> None:
         col.check(bool(rng_ok), bref.where(e.node), bref.short, "every row of the chosen-coalition lists is copied into the action tensor (range(len(<that list>)))",
                   construct="best-states-fill-range", necessity="a shorter range leaves the last row NaN: the file does not hold the action matrix the search produced")
 
-    col.rule("W7", "savers treat the output as read-only (what is serialised is what was computed)", 3)
-    for e in registry(prog, "run.save.SAVERS"):
+    col.rule("W7", "every saver that runs before (or is) the JSON saver treats the output as read-only (what is serialised is what was computed)", 1)
+    w7_entries = list(registry(prog, "run.save.SAVERS"))
+    jq7 = json_saver(prog).qual
+    order = [prog.resolve(e.module, e.value) for e in w7_entries]
+    jpos = next((i for i, q in enumerate(order) if q and prog.find_func(q) is not None and prog.find_func(q).qual == jq7), len(order))
+    for pos, e in enumerate(w7_entries):
         q = prog.resolve(e.module, e.value)
         r = prog.find_func(q) if q else None
         if r is None or len(r.positional_params()) < 3:
+            continue
+        if pos > jpos:
+            col.ok(r.where(), r.short, f"SAVERS[{e.key!r}] runs after the JSON saver: what it does to the Output object cannot change what was stored")
             continue
         outp = ("param", r.positional_params()[2])
         rft = fterms(prog, r)
